@@ -144,6 +144,20 @@ func c20Run(c c20Case) Verdict {
 				shutErr = err
 				mu.Unlock()
 			}()
+		case "settle":
+			// let a Close/Shutdown that was started get as far as it can
+			// before the next step: until it has returned or has closed every
+			// connection (Close), bounded; nothing is concluded from the wait
+			ch := closeDone
+			if ch == nil {
+				ch = shutDone
+			}
+			if ch != nil {
+				select {
+				case <-ch:
+				case <-time.After(30 * time.Millisecond):
+				}
+			}
 		case "cancel":
 			if cancel != nil {
 				cancel()
